@@ -3,8 +3,8 @@
     time_to_unicode with default formats = isoformat()) and
     spyne/protocol/_inbase.py (datetime_from_unicode_iso,
     _parse_datetime_iso_match, date_from_unicode[_iso], time_from_unicode) with
-    the regexes of spyne/model/primitive/datetime.py as prefix scanners
-    (re.match anchors only at the start). *)
+    the regexes of spyne/model/primitive/datetime.py as scanners (the dateTime
+    and date regexes end in \Z; _time_re is still a prefix match). *)
 From SpyneV Require Export Base.Digits.
 From Coq Require Import PrimFloat Uint63 FloatOps SpecFloat.
 
@@ -142,13 +142,16 @@ Definition datetime_from_unicode_iso (s : text) : out datetime :=
             match scan_time s2 with
             | None => VFault
             | Some (h, m, x, f, rest) =>
+                (* the three regexes end in \Z: the text must end after 'Z', after the offset, or
+                   right after the time *)
                 match rest with
-                | 90 :: _ => mk_datetime d h m x (usec_of f) (Some 0)
+                | [90] => mk_datetime d h m x (usec_of f) (Some 0)
+                | [] => mk_datetime d h m x (usec_of f) None
                 | _ =>
                     match scan_offset rest with
-                    | Some (neg, oh, om, _) =>
+                    | Some (neg, oh, om, []) =>
                         mk_datetime d h m x (usec_of f) (Some (offset_minutes neg oh om))
-                    | None => mk_datetime d h m x (usec_of f) None
+                    | _ => VFault
                     end
                 end
             end
@@ -194,12 +197,12 @@ Definition strptime_ymd (s : text) : option date :=
   | [] => let v := mkdate y m d in if valid_date v then Some v else None
   | _ => None
   end.
-(** Date._offset_re = DATE_PATTERN + '(' + OFFSET_PATTERN + '|Z)' (prefix match) *)
+(** Date._offset_re = DATE_PATTERN + '(' + OFFSET_PATTERN + '|Z)\Z' *)
 Definition scan_date_tz (s : text) : option date :=
   opt (d, s) <- scan_date s;
   match s with
-  | 90 :: _ => Some d
-  | _ => opt _ <- scan_offset s; Some d
+  | [90] => Some d
+  | _ => match scan_offset s with Some (_, _, _, []) => Some d | _ => None end
   end.
 (** date_from_unicode with date_format None:
       try: date_from_unicode_iso (strptime, else offset regex and date(), else ValidationError)
